@@ -12,6 +12,12 @@ MANUAL = {
     "C19_b": "cargo test --workspace --offline with the change: 0 failed; (cd miniz_oxide; cargo test --offline --features block-boundary --test c19_b_demo) "
              "with the change: 2 of 3 failed; without: 3 passed",
     "C20_a": "cargo test --workspace --offline with the change: 0 failed; bash demo.sh with the change: FAIL (no global memory allocator found); without: PASS",
+    "C19_c": "cargo test --workspace --offline with the change: 0 failed; cargo test --offline -p miniz_oxide_test --test c19_c_demo with the "
+             "change: 1 of 2 failed; without: 2 passed",
+    "C20_c": "cargo test --workspace --offline with the change: 0 failed; (cd miniz_oxide; cargo test --offline --features block-boundary "
+             "--test c20_c_demo) with the change: 1 of 2 failed (DecompressorOxide is not Sync); without: 2 passed",
+    "C20_d": "cargo test --workspace --offline with the change: 0 failed; bash demo.sh with the change: FAIL (duplicate lang item panic_impl: "
+             "std linked under feature simd); without: PASS",
     "C20_b": "cargo test --workspace --offline with the change: 0 failed; bash demo.sh with the change: FAIL (unsafe token at output_buffer.rs:126,130); without: PASS",
 }
 
